@@ -305,6 +305,12 @@ def run(rep: C.Report) -> None:
         batch=2,
         twins=False,
     )
+    try:
+        from props.C05 import placeholder_input
+
+        placeholder_input(rep, "C01")
+    except Exception as e:  # noqa: BLE001
+        rep.extra["placeholder_probe_error"] = f"{type(e).__name__}: {e}"
 
 
 def replay(r: dict) -> int:
